@@ -13,7 +13,10 @@ SPDX-License-Identifier: BUSL-1.1
 // simulator through Install; with no hooks installed all functions are no-ops.
 package simhook
 
-import "sync/atomic"
+import (
+	"runtime/debug"
+	"sync/atomic"
+)
 
 // Enabled reports whether simulation hooks are compiled in.
 const Enabled = true
@@ -25,6 +28,9 @@ type Hooks struct {
 	BeforeLock func(point string, try func() bool)
 	GoStart    func(name string)
 	GoEnd      func()
+	// GoPanic is told about a panic that unwinds a named goroutine (GoEnd is deferred at
+	// its top); the panic is swallowed so that the simulator can report it
+	GoPanic func(value interface{}, stack []byte)
 	// seeded choices and reach probes
 	Intn  func(n int, label string) int
 	Probe func(name string)
@@ -67,7 +73,13 @@ func GoStart(name string) {
 }
 
 func GoEnd() {
-	if h := current.Load(); h != nil && h.GoEnd != nil {
+	h := current.Load()
+	if h != nil && h.GoPanic != nil {
+		if x := recover(); x != nil {
+			h.GoPanic(x, debug.Stack())
+		}
+	}
+	if h != nil && h.GoEnd != nil {
 		h.GoEnd()
 	}
 }
